@@ -222,6 +222,18 @@ class ClassInfo:
     def init_params(self) -> List[DCField]:
         return [f for f in self.dc_fields() if f.init]
 
+    def class_level_init(self, attr: str) -> Optional[Tuple["ClassInfo", ast.AST]]:
+        """`attr = value` / `attr: T = value` in the body of this class or of a base (not a dataclass field)."""
+        for c in self.mro():
+            if c.is_dataclass and any(f.name == attr for f in c.own_fields):
+                return None
+            for st_ in c.node.body:
+                if isinstance(st_, ast.Assign) and len(st_.targets) == 1 and isinstance(st_.targets[0], ast.Name) and st_.targets[0].id == attr:
+                    return c, st_.value
+                if isinstance(st_, ast.AnnAssign) and isinstance(st_.target, ast.Name) and st_.target.id == attr and st_.value is not None:
+                    return c, st_.value
+        return None
+
     def is_subclass_of_ext(self, extname: str) -> bool:
         for c in self.mro():
             if extname in c.ext_bases:
